@@ -130,6 +130,7 @@ fn fs_error(msg: &'static str) -> Error {
         "Is a directory" => ErrorKind::IsADirectory,
         "Not a directory" => ErrorKind::NotADirectory,
         "No space left on device" => ErrorKind::StorageFull,
+        "Invalid argument" => ErrorKind::InvalidInput,
         _ => ErrorKind::Other,
     };
     Error::new(kind, msg)
